@@ -3,11 +3,11 @@
    and preserved networks are left alone, the address is anonymized or de-anonymized according to the undo flag, the new address printed,
    every match of the line treated in turn with the anonymizer's cache carried along, the rest of the line copied.
    The anonymizer's own methods are calls of the py_call parameter here (they are refined separately: RefAnon, RefDeanon, RefShould, RefMask);
-   the dispatcher ip_call answers them with the MODEL's functions; an anonymizer object is its cache (RefIo.eip), the rest is a parameter. *)
+   the dispatcher ip_call answers them with the MODEL's functions; an anonymizer object is its cache (RefIoBase.eip), the rest is a parameter. *)
 From Coq Require Import String.
 From Coq Require Import List ZArith NArith Bool Arith Lia.
 Import ListNotations.
-Require Import PyLib PyLib2 Str IpText Rx RxFacts RxSub G_rx Memo IpModel TextModel G_fn_ip2 RefJun RefJunDec RefIpCommon RefValue RefSub RefIo.
+Require Import PyLib PyLib2 Str IpText Rx RxFacts RxSub G_rx Memo IpModel TextModel G_fn_ip2 RefJun RefStr RefIpCommon RefBase RefSub RefIoBase.
 Notation vstr := RefJun.vstr.
 
 Section L.
